@@ -57,7 +57,7 @@ func (S) Info() scen.Info {
 			"goroutine scheduling":   "stub: single walker task under the seeded scheduler",
 		},
 		QuickUnits: 2500, ThoroughUnits: 150000, QuickSecs: 240, ThoroughSecs: 1200,
-		ProbeKeys: []string{"probe.transform_once_cut", "probe.transform_linkbudget_cut", "probe.transform_skip_cut", "probe.budget_cut_mid_block", "probe.linkbudget_cut", "probe.startat_inside_linked_block", "probe.startat_skipped_load", "probe.once_pruned", "probe.skipme_pruned", "probe.resume_concat_checked", "probe.w0_ended_in_error", "probe.repeated_link", "probe.matching_walk", "probe.transform_budget_cut", "probe.walklocal_budget_cut"},
+		ProbeKeys: []string{"probe.focus_nodebudget_cut", "probe.focus_linkbudget_cut", "probe.transform_once_cut", "probe.transform_linkbudget_cut", "probe.transform_skip_cut", "probe.budget_cut_mid_block", "probe.linkbudget_cut", "probe.startat_inside_linked_block", "probe.startat_skipped_load", "probe.once_pruned", "probe.skipme_pruned", "probe.resume_concat_checked", "probe.w0_ended_in_error", "probe.repeated_link", "probe.matching_walk", "probe.transform_budget_cut", "probe.walklocal_budget_cut"},
 		EventsKey: "events",
 	}
 }
@@ -264,7 +264,7 @@ func (w *world) walk(matching bool, budget *traversal.Budget, startAt datamodel.
 	return res
 }
 
-var ctlNames = []string{"none", "NodeBudget", "LinkBudget", "StartAtPath", "LinkVisitOnlyOnce", "SkipMe", "Resume", "TransformNodeBudget", "WalkLocalNodeBudget", "TransformLinkControls"}
+var ctlNames = []string{"none", "NodeBudget", "LinkBudget", "StartAtPath", "LinkVisitOnlyOnce", "SkipMe", "Resume", "TransformNodeBudget", "WalkLocalNodeBudget", "TransformLinkControls", "FocusBudgets"}
 
 func (S) RunTape(t *sim.Tape, st *sim.Stats, keepLog bool) *sim.Outcome {
 	o := &sim.Outcome{}
@@ -840,6 +840,127 @@ func (S) RunTape(t *sim.Tape, st *sim.Stats, keepLog bool) *sim.Outcome {
 				cut = true
 				st.Inc("probe.transform_skip_cut")
 			}
+		case 10: // Focus / Get / FocusedTransform along a visited path, under a node or link budget
+			if w0.err != nil || matching || len(visits) == 0 || basicStore {
+				return
+			}
+			target := w0.evs[visits[pos%len(visits)]].P
+			nseg := target.Len()
+			type fres struct {
+				av    string
+				loads []ev
+				err   error
+				pan   string
+			}
+			run := func(op int, b *traversal.Budget) (r fres) {
+				cfg := &traversal.Config{LinkSystem: w.lsys, LinkTargetNodePrototypeChooser: func(datamodel.Link, linking.LinkContext) (datamodel.NodePrototype, error) {
+					return basicnode.Prototype.Any, nil
+				}}
+				scratch := []ev{}
+				w.cur = &scratch
+				avOf := func(n datamodel.Node) string {
+					if n == nil {
+						return "nil"
+					}
+					v, err := model.FromNode(n)
+					if err != nil {
+						return "unreadable:" + err.Error()
+					}
+					return fmt.Sprintf("%x", v.Hash())
+				}
+				func() {
+					defer func() {
+						if x := recover(); x != nil {
+							if _, ok := x.(interface{ IsStepCap() }); ok {
+								panic(x)
+							}
+							r.pan = fmt.Sprint(x)
+						}
+					}()
+					prog := traversal.Progress{Cfg: cfg, Budget: b}
+					switch op {
+					case 0:
+						var n datamodel.Node
+						n, r.err = prog.Get(w.g.RootNode, target)
+						if r.err == nil {
+							r.av = avOf(n)
+						}
+					case 1:
+						r.err = prog.Focus(w.g.RootNode, target, func(p traversal.Progress, n datamodel.Node) error {
+							r.av = avOf(n) + "@" + p.Path.String()
+							w.s.Yield("visit")
+							return nil
+						})
+					case 2:
+						// an identity transform at the target: what the callback is handed, nothing is written
+						_, r.err = prog.FocusedTransform(w.g.RootNode, target, func(p traversal.Progress, n datamodel.Node) (datamodel.Node, error) {
+							r.av = avOf(n) + "@" + p.Path.String()
+							w.s.Yield("callback")
+							return n, nil
+						}, false)
+					}
+				}()
+				for _, e := range scratch {
+					if e.K == 'l' {
+						r.loads = append(r.loads, e)
+					}
+				}
+				return
+			}
+			opNames := []string{"Get", "Focus", "FocusedTransform(identity)"}
+			for op := 0; op < 3; op++ {
+				r0 := run(op, nil)
+				if r0.pan != "" || r0.err != nil {
+					continue // no reference run (what a visited path resolves to is C14's matter)
+				}
+				var be *traversal.ErrBudgetExceeded
+				if parsed {
+					K := subset % 8
+					r := run(op, &traversal.Budget{NodeBudget: 1 << 40, LinkBudget: int64(K)})
+					wantLoads := r0.loads
+					if K < len(r0.loads) {
+						wantLoads = r0.loads[:K]
+					}
+					switch {
+					case r.pan != "":
+						o.Fail("panic", sig, "%s(%q) with LinkBudget=%d panicked: %s", opNames[op], target.String(), K, r.pan)
+					case !sameEvents(r.loads, wantLoads):
+						o.Fail("restricted-walk-differs", sig, "%s(%q) with LinkBudget=%d loaded %s; the first %d loads of the unrestricted call are %s", opNames[op], target.String(), K, render(r.loads), K, render(wantLoads))
+					case K < len(r0.loads) && !errors.As(r.err, &be):
+						o.Fail("restricted-walk-error", sig, "%s(%q) needs %d loads; with LinkBudget=%d it ended with %v, not a budget error", opNames[op], target.String(), len(r0.loads), K, r.err)
+					case K >= len(r0.loads) && (r.err != nil || r.av != r0.av):
+						o.Fail("restricted-walk-error", sig, "%s(%q) needs %d loads; with the sufficient LinkBudget=%d it gave err=%v result %s (unrestricted: %s)", opNames[op], target.String(), len(r0.loads), K, r.err, r.av, r0.av)
+					}
+					if K < len(r0.loads) {
+						cut = true
+						st.Inc("probe.focus_linkbudget_cut")
+					}
+				} else {
+					N := subset % 12
+					r := run(op, &traversal.Budget{NodeBudget: int64(N), LinkBudget: 1 << 40})
+					switch {
+					case r.pan != "":
+						o.Fail("panic", sig, "%s(%q) with NodeBudget=%d panicked: %s", opNames[op], target.String(), N, r.pan)
+					case r.err != nil && !errors.As(r.err, &be):
+						o.Fail("restricted-walk-error", sig, "%s(%q) with NodeBudget=%d ended with %v (the unrestricted call succeeds)", opNames[op], target.String(), N, r.err)
+					case r.err == nil && r.av != r0.av:
+						o.Fail("restricted-walk-differs", sig, "%s(%q) with NodeBudget=%d gave %s, unrestricted %s", opNames[op], target.String(), N, r.av, r0.av)
+					case r.err != nil && N >= nseg+1+len(r0.loads):
+						// the path names nseg+1 nodes (root included) and every crossed link adds the root of a loaded
+						// block (whether a link and its block count once or twice is the implementation's choice): a
+						// budget of that many suffices
+						o.Fail("restricted-walk-error", sig, "%s(%q) steps through at most %d nodes; with NodeBudget=%d it ended with %v", opNames[op], target.String(), nseg+1+len(r0.loads), N, r.err)
+					case r.err == nil && N == 0 && nseg > 0:
+						o.Fail("restricted-walk-error", sig, "%s(%q) succeeded with NodeBudget=0", opNames[op], target.String())
+					case r.err != nil && !sameEvents(r.loads, r0.loads[:min(len(r.loads), len(r0.loads))]):
+						o.Fail("restricted-walk-differs", sig, "%s(%q) with NodeBudget=%d loaded %s, not a prefix of the unrestricted call's %s", opNames[op], target.String(), N, render(r.loads), render(r0.loads))
+					}
+					if r.err != nil {
+						cut = true
+						st.Inc("probe.focus_nodebudget_cut")
+					}
+				}
+			}
 		case 6: // budget N, then resume at the path the error carries
 			N := pos
 			if N >= info.V || matching {
@@ -956,6 +1077,20 @@ func (S) Unit(u *scen.Unit) {
 		u.Exec(map[string]int{"ctl.kind": 8, "ctl.pos": n, "ctl.matching": 0})
 		u.St.Inc("enum.walklocal_budget")
 	}
+	if !bi.Err0 && bi.V > 0 {
+		// Focus / Get / FocusedTransform along seeded visited paths, every small node and link budget
+		for k := 0; k < 4; k++ {
+			at := int(sim.SeedFor(int64(u.Seed), "focus.at", k) % uint64(bi.V))
+			for n := 0; n < 8; n++ {
+				u.Exec(map[string]int{"ctl.kind": 10, "ctl.pos": at, "ctl.matching": 0, "ctl.parsed": 0, "ctl.subset": n})
+				u.St.Inc("enum.focus_nodebudget")
+			}
+			for l := 0; l <= bi.K+1 && l < 6; l++ {
+				u.Exec(map[string]int{"ctl.kind": 10, "ctl.pos": at, "ctl.matching": 0, "ctl.parsed": 1, "ctl.subset": l})
+				u.St.Inc("enum.focus_linkbudget")
+			}
+		}
+	}
 	if !bi.Err0 && bi.K > 0 {
 		// link controls under the transforming walk: visit-once, every link budget, every link skipped
 		for n := 0; n <= 2*bi.K+4 && n < 40; n++ {
@@ -963,4 +1098,11 @@ func (S) Unit(u *scen.Unit) {
 			u.St.Inc("enum.transform_link_controls")
 		}
 	}
+}
+
+func min(a, b int) int {
+	if a < b {
+		return a
+	}
+	return b
 }
